@@ -45,8 +45,9 @@ SimCandidates(S_) ==
            Mk("dflip", da, 0, Rnd(D.R), Rnd(D.C), <<>>, <<>>),
            Mk("dfree", da, 0, 0, 0, <<>>, <<>>) }
 
-SimInit == S = S0 /\ hist = <<>>
+SimInit == S = S0 /\ depth = 0 /\ hist = <<>>
 SimNext == /\ Len(hist) < SimDepth
+           /\ UNCHANGED depth
            /\ \E o \in SimCandidates(S) : Enabled(S, o) /\ S' = Apply(S, o) /\ hist' = Append(hist, o)
 
 Export == Len(hist) = SimDepth => PrintT(<<"BEH", ToJson(hist)>>)
